@@ -283,4 +283,36 @@ theorem abs_pokeA {a : Arena} {at_ : Ref} {bs : Bytes} (hc : ∀ r ∈ a.relocs,
   show (bodies (mapSlots _ a.relocs (pokeA a at_ bs)), a.relocs) = _
   rw [mapSlots_pokeA _ _ hc, bodies_pokeA]
 
+/-! ### registering a slot and storing a pointer into it with no allocation in between -/
+
+theorem setSlot_eq_pokeA (a : Arena) (s : Ref) (v : Nat) : setSlot a s v = pokeA a s (leBytes 8 v) := by
+  refine Arena.ext' ?_ (by rfl) (by rfl) (by rfl)
+  simp only [setSlot, pokeA, wr64_eq_wrBytes]
+
+theorem aSet_over_poke (x : AArena) (s : Ref) (p v : Nat) :
+    aSet (x.1.modify s.buf (fun d => wrBytes d s.off (leBytes 8 p)), x.2) s v = aSet x s v := by
+  unfold aSet
+  simp only [List.modify_modify_eq]
+  congr 2
+  funext d
+  simp only [Function.comp, ← wr64_eq_wrBytes, wr64_wr64_same]
+
+/-- the slot `s` (inside used bytes, touching no registered slot, holding anything) is registered and a valid
+    pointer `p` is stored into it: the protocol holds afterwards and the abstract arena has the slot registered
+    with the reference `p` denotes -/
+theorem regSet_spec {a : Arena} (h : WF a) {s : Ref} (hin : InB a s) (hc : ∀ r ∈ a.relocs, Clear r s.buf s.off 8)
+    {p : Nat} (hp : ValidPtr a.bufs p) (hlt : p < 2 ^ 64) :
+    WF (regSlot (setSlot a s p) s) ∧
+      abs (regSlot (setSlot a s p) s) = aReg (aSet (abs a) s (encRef (ptrToRef a.bufs p).2)) s := by
+  have hl8 : (leBytes 8 p).length = 8 := length_leBytes 8 p
+  have hc' : ∀ r ∈ a.relocs, Clear r s.buf s.off (leBytes 8 p).length := by rw [hl8]; exact hc
+  have hw1 : WF (setSlot a s p) := by rw [setSlot_eq_pokeA]; exact wf_pokeA h hc'
+  have ha1 : abs (setSlot a s p) = ((abs a).1.modify s.buf (fun d => wrBytes d s.off (leBytes 8 p)), (abs a).2) := by
+    rw [setSlot_eq_pokeA]; exact abs_pokeA hc'
+  have hk := keys_setSlot a s p
+  have hno : ∀ r ∈ (setSlot a s p).relocs, NoOverlap r s := fun r hr => (hc r hr).noOverlap
+  have hget : getSlot (setSlot a s p) s = p := by rw [getSlot_setSlot_same _ hin, Nat.mod_eq_of_lt hlt]
+  refine ⟨wf_regSlot hw1 ((InB_setSlot a s p s).2 hin) hno (by rw [hget]; exact hp.congr hk.symm), ?_⟩
+  rw [abs_regSlot _ hno, hget, ptrToRef_congr hk, ha1, aSet_over_poke]
+
 end YaraModel.Arena
